@@ -352,7 +352,7 @@ var epoch = time.Date(2024, 3, 10, 0, 0, 0, 0, time.UTC).Unix()
 
 const slot = 12 * 3600
 
-func at(s int) int64 { return epoch + int64(s)*slot }
+func at(s int) int64     { return epoch + int64(s)*slot }
 func p64(v int64) *int64 { return &v }
 
 func dt(v int64) string   { return time.Unix(v, 0).UTC().Format("20060102T150405Z") }
@@ -577,44 +577,66 @@ func TestEnumerateRecurring(t *testing.T) {
 						length = day
 						props = append(props, Prop{Name: "DTSTART", Value: date(d0), Params: [][2]string{{"VALUE", "DATE"}}})
 					}
-					ev := vevent(props...)
-					// interesting instants: around every instance boundary
-					var pts []int64
-					for k := int64(0); k < count; k++ {
-						s := d0 + k*interval*step
-						for _, x := range []int64{s - 3600, s, s + 1, s + length - 1, s + length, s + length + 3600} {
-							pts = append(pts, x)
+					evs := []Comp{vevent(props...)}
+					// the same series with its first, or its last, occurrence taken out again (EXDATE): DTSTART itself
+					// is then no instance (added after seeded change C06-s9)
+					for _, k := range []int64{0, count - 1} {
+						exv := dt(d0 + k*interval*step)
+						exp := Prop{Name: "EXDATE", Value: exv}
+						if form == "allday" {
+							exp = Prop{Name: "EXDATE", Value: date(d0 + k*interval*step), Params: [][2]string{{"VALUE", "DATE"}}}
+						}
+						evs = append(evs, vevent(append(append([]Prop{}, props...), exp)...))
+						if count == 1 {
+							break
 						}
 					}
-					pts = append(pts, d0-30*day, d0+60*day)
-					for i, a := range pts {
-						for j, b := range pts {
-							if i != j && a >= b {
-								continue
+					for evi, ev := range evs {
+						if evi > 0 && (interval == 2 || form == "duration") {
+							continue // the EXDATE variants on half of the family keep the quick tier's size in check
+						}
+						// interesting instants: around every instance boundary
+						var pts []int64
+						for k := int64(0); k < count; k++ {
+							s := d0 + k*interval*step
+							for _, x := range []int64{s - 3600, s, s + 1, s + length - 1, s + length, s + length + 3600} {
+								pts = append(pts, x)
 							}
-							var r [2]*int64
-							switch {
-							case i == j && i%2 == 0:
-								r = [2]*int64{p64(a), nil}
-							case i == j:
-								r = [2]*int64{nil, p64(a)}
-							default:
-								r = [2]*int64{p64(a), p64(b)}
+						}
+						pts = append(pts, d0-30*day, d0+60*day)
+						for i, a := range pts {
+							for j, b := range pts {
+								if i != j && a >= b {
+									continue
+								}
+								var r [2]*int64
+								switch {
+								case i == j && i%2 == 0:
+									r = [2]*int64{p64(a), nil}
+								case i == j:
+									r = [2]*int64{nil, p64(a)}
+								default:
+									r = [2]*int64{p64(a), p64(b)}
+								}
+								idx++
+								if !vev.MyShare(idx) {
+									continue
+								}
+								f := CompF{Name: "VCALENDAR", Comps: []CompF{{Name: "VEVENT", Start: r[0], End: r[1]}}}
+								cls := "d/" + form
+								if evi > 0 {
+									cls += "/exdate"
+								}
+								run(t, nil, Case{Mode: "match", Filter: f, Objects: []Comp{vcal(ev)}}, cls)
+								run(t, nil, Case{Mode: "match", Filter: f, Objects: []Comp{vcal(ev)}, QZone: -28800}, "d/"+form+"/qzone")
 							}
-							idx++
-							if !vev.MyShare(idx) {
-								continue
-							}
-							f := CompF{Name: "VCALENDAR", Comps: []CompF{{Name: "VEVENT", Start: r[0], End: r[1]}}}
-							run(t, nil, Case{Mode: "match", Filter: f, Objects: []Comp{vcal(ev)}}, "d/"+form)
-							run(t, nil, Case{Mode: "match", Filter: f, Objects: []Comp{vcal(ev)}, QZone: -28800}, "d/"+form+"/qzone")
 						}
 					}
 				}
 			}
 		}
 	}
-	rec.ExhaustiveSub("recurring VEVENTs FREQ{DAILY,WEEKLY} x INTERVAL{1,2} x COUNT{1,2,3} x {DTEND,DURATION,instant,all-day}; ranges between all pairs of instants placed just before/on/inside/at the end of/after every instance, plus open-start and open-end ranges")
+	rec.ExhaustiveSub("recurring VEVENTs FREQ{DAILY,WEEKLY} x INTERVAL{1,2} x COUNT{1,2,3} x {DTEND,DURATION,instant,all-day}, half of them also with the first or the last occurrence taken out by EXDATE; ranges between all pairs of instants placed just before/on/inside/at the end of/after every instance, plus open-start and open-end ranges")
 }
 
 // (c)+(e) random
